@@ -9,6 +9,12 @@ use std::panic::{self, AssertUnwindSafe};
 
 thread_local! {
     static LAST_PANIC: RefCell<Option<(String, String)>> = RefCell::new(None);
+    static LAST_STEPS: std::cell::Cell<u64> = std::cell::Cell::new(0);
+}
+
+/// engine steps consumed by the most recent `guarded` call on this thread
+pub fn last_steps() -> u64 {
+    LAST_STEPS.with(|s| s.get())
 }
 
 pub fn install() {
@@ -72,6 +78,7 @@ pub fn guarded<T>(budget: u64, f: impl FnOnce() -> T) -> Guarded<T> {
     let r = panic::catch_unwind(AssertUnwindSafe(f));
     // disarm
     let steps = proto_vulcan::verif_hooks::steps();
+    LAST_STEPS.with(|s| s.set(steps));
     proto_vulcan::verif_hooks::reset(u64::MAX);
     match r {
         Ok(v) => Guarded::Ok(v),
